@@ -93,7 +93,7 @@ var clauseKeywords = map[string]bool{
 	"for": true, "end": true, "spec": true, "func": true, "lemma": true, "props": true, "propsdefault": true,
 	"requires": true, "ensures": true, "panics_when": true, "errors_when": true, "modifies": true,
 	"loop": true, "decreases": true, "model": true, "trusted": true, "pure": true, "inline": true,
-	"nosafe": true, "atomic_panics": true, "site": true, "jetspec": true, "jetd": true, "jetrequires": true, "jetalias": true, "jetresult": true, "jetoperands": true, "jetvalueonly": true, "unroll": true, "refines": true, "may_panic": true,
+	"nosafe": true, "atomic_panics": true, "site": true, "jetspec": true, "jetsupport": true, "jeterrors_when": true, "jetensures": true, "jetd": true, "jetrequires": true, "jetalias": true, "jetresult": true, "jetoperands": true, "jetvalueonly": true, "unroll": true, "refines": true, "may_panic": true,
 }
 
 // ParseContractFile reads the //@ lines of one file.
@@ -263,7 +263,7 @@ func ParseContractFile(path, pkg string, cf *ContractFile) error {
 					return fail(err)
 				}
 				c.Clauses = append(c.Clauses, &Clause{Kind: w, E: e, Src: rest, Line: s.line, Name: name})
-			case "jetspec", "jetrequires":
+			case "jetspec", "jetrequires", "jetsupport", "jeterrors_when", "jetensures":
 				e, err := ParseExpr(rest)
 				if err != nil {
 					return fail(err)
